@@ -133,8 +133,8 @@ def rule_r1(chk):
         chk.undecided("C07-R1", "plans.simulation_plans.SimulationPlan._get_per_indexes[start..end inclusive]", f"not evaluable: {ex}", m.loc(gp))
 
 
-def rule_r2(chk):
-    chk.rule("C07-R2", "stacked-time: wrt_spots = sorted((all - exogenized) | endogenized); unanticipated registers are looked up for the "
+def rule_r2(chk, rid="C07-R2"):
+    chk.rule(rid, "stacked-time: wrt_spots = sorted((all - exogenized) | endogenized); unanticipated registers are looked up for the "
              "first column only; _copy_exogenized_data_to_frame_data(data, exogenized_spots, input_data_array) precedes the solver call; "
              "the solver writes only the cells of the update map built from wrt_spots; the terminal condition writes columns after the "
              "last simulated one", floor=8)
@@ -156,7 +156,7 @@ def rule_r2(chk):
         return unparse(n)
     se = setexpr(final) if final is not None else None
     want = ("union", ("difference", "wrt_spots", "exogenized_spots"), "endogenized_spots")
-    chk.ob("C07-R2", "stacked_time.simulators._get_wrt_spots[set algebra]", se == want if se is not None else None,
+    chk.ob(rid, "stacked_time.simulators._get_wrt_spots[set algebra]", se == want if se is not None else None,
            f"unknowns = {se}", m.loc(f))
     for kind in ("exogenized", "endogenized"):
         v = assign_value(f, f"{kind}_spots")
@@ -166,7 +166,7 @@ def rule_r2(chk):
                 if isinstance(side, ast.Call) and dotted(side.func) == "spots_from_register" and len(side.args) == 2 and isinstance(side.args[0], ast.Constant):
                     parts[side.args[0].value] = squash(side.args[1])
         ok = parts == {f"{kind}_anticipated": "columns_to_run", f"{kind}_unanticipated": "columns_to_run[0:1]"}
-        chk.ob("C07-R2", f"stacked_time.simulators._get_wrt_spots[{kind} spots]", ok if parts else None,
+        chk.ob(rid, f"stacked_time.simulators._get_wrt_spots[{kind} spots]", ok if parts else None,
                f"{kind}: {parts} (anticipated over all columns, unanticipated in the first column only)", m.loc(f))
     sp = m.func("_get_wrt_spots.spots_from_register")
     from ..core import inline_locals
@@ -195,17 +195,17 @@ def rule_r2(chk):
             detail = (f"Token({unparse(c.elt.args[0])}, {unparse(c.elt.args[1])}) for the rows of {unparse(r_iter)} and the columns of {sps[1]}, "
                       f"kept when {unparse(cd)}: qid of the row's name {qid_ok}; data column of the position {col_ok}; incidence read at "
                       f"[row, position] of the same register {cond_ok and rows_ok}")
-    chk.ob("C07-R2", "stacked_time.simulators._get_wrt_spots.spots_from_register", ok, detail, m.loc(sp))
+    chk.ob(rid, "stacked_time.simulators._get_wrt_spots.spots_from_register", ok, detail, m.loc(sp))
     rb = assign_value(f, "registers_as_bool_arrays")
     ok = rb is not None and "periods=periods_to_run" in squash(rb) and "register_names=_RELEVANT_REGISTER_NAMES" in squash(rb)
-    chk.ob("C07-R2", "stacked_time.simulators._get_wrt_spots[register periods]", ok if rb is not None else None,
+    chk.ob(rid, "stacked_time.simulators._get_wrt_spots[register periods]", ok if rb is not None else None,
            "register columns are the periods of columns_to_run", m.loc(f))
     g = m.func("simulate_frame")
     chk.saw(m, "simulate_frame")
     cp = calls_to(g, "_copy_exogenized_data_to_frame_data")
     sv = calls_to(g, "_nq.damped_newton")
     ok = len(cp) == 1 and len(sv) == 1 and cp[0].lineno < sv[0].lineno and [squash(a) for a in cp[0].args] == ["data", "exogenized_spots", "input_data_array"]
-    chk.ob("C07-R2", "stacked_time.simulators.simulate_frame[copy before solve]", ok if cp and sv else (False if sv else None),
+    chk.ob(rid, "stacked_time.simulators.simulate_frame[copy before solve]", ok if cp and sv else (False if sv else None),
            "exogenized cells are filled from the input data before the solver starts", m.loc(g))
     un = [n for n in walk_no_nested(g) if isinstance(n, ast.Assign) and isinstance(n.value, ast.Call) and dotted(n.value.func) == "_get_wrt_spots"]
     oks = []
@@ -213,12 +213,12 @@ def rule_r2(chk):
         o, d = tuple_agreement(tuple_names(r.value), tuple_names(un[0].targets[0]) if len(un) == 1 else None)
         oks.append(o)
     ok = None if (not oks or None in oks) else all(oks)
-    chk.ob("C07-R2", "stacked_time.simulators.simulate_frame[unpack order]", ok,
+    chk.ob(rid, "stacked_time.simulators.simulate_frame[unpack order]", ok,
            f"_get_wrt_spots returns {[tuple_names(r.value) for r in returns_of(f)]}; unpacked as {tuple_names(un[0].targets[0]) if un else None}", m.loc(g))
     ce = calls_to(g, "_evaluators.create_evaluator")
     kw = {k.arg: squash(k.value) for k in ce[0].keywords} if ce else {}
     ok = kw.get("wrt_spots") == "wrt_spots" and kw.get("columns_to_eval") == "columns_to_run"
-    chk.ob("C07-R2", "stacked_time.simulators.simulate_frame[evaluator wrt]", ok if ce else None,
+    chk.ob(rid, "stacked_time.simulators.simulate_frame[evaluator wrt]", ok if ce else None,
            "the evaluator (and its update map) is built from wrt_spots", m.loc(g))
     c = m.func("_copy_exogenized_data_to_frame_data")
     ps = params(c)
@@ -244,22 +244,22 @@ def rule_r2(chk):
         ok = same_index and from_input and idx_ok
         detail = (f"{unparse(st)[:80]}: same index on both sides: {same_index}; read from the input array: {from_input}; "
                   f"index computed from the exogenized spots only: {idx_ok}")
-    chk.ob("C07-R2", "stacked_time.simulators._copy_exogenized_data_to_frame_data", ok, detail, m.loc(c))
+    chk.ob(rid, "stacked_time.simulators._copy_exogenized_data_to_frame_data", ok, detail, m.loc(c))
     em = chk.repo.mod(EVM)
     um = em.func("_create_update_map")
     src = squash(um)
     ok = "lhs_rows,lhs_columns=zip(*wrt_spots)" in src and "update_map.lhs=(lhs_rows,lhs_columns)" in src
-    chk.ob("C07-R2", "stacked_time._evaluators._create_update_map", ok, "the cells the solver writes are exactly wrt_spots", em.loc(um))
+    chk.ob(rid, "stacked_time._evaluators._create_update_map", ok, "the cells the solver writes are exactly wrt_spots", em.loc(um))
     up = em.func("create_evaluator.update")
     stores = [squash(n.targets[0]) for n in walk_no_nested(up) if isinstance(n, ast.Assign) and isinstance(n.targets[0], ast.Subscript) and unparse(n.targets[0].value) == "data_array"]
-    chk.ob("C07-R2", "stacked_time._evaluators.create_evaluator.update[writes]", stores == ["data_array[update_map.lhs[0],update_map.lhs[1]]"],
+    chk.ob(rid, "stacked_time._evaluators.create_evaluator.update[writes]", stores == ["data_array[update_map.lhs[0],update_map.lhs[1]]"],
            f"update writes {stores}", em.loc(up))
     # period-by-period swap
     pm = chk.repo.mod(PBP)
     sc = pm.func("_setup_current_period")
     asg = assignments(sc, "current_wrt_qids")
     se = setexpr(asg[-1].value) if asg else None
-    chk.ob("C07-R2", "period_by_period.simulators._setup_current_period[set algebra]",
+    chk.ob(rid, "period_by_period.simulators._setup_current_period[set algebra]",
            se == ("union", ("difference", "current_wrt_qids", "qids_exogenized"), "qids_endogenized") if se is not None else None, f"unknowns = {se}", pm.loc(sc))
 
 
